@@ -167,6 +167,8 @@ def nm(x):
     """Short stable rendering of specs/classes/objects for logs."""
     if x is None:
         return 'None'
+    if isinstance(x, (str, int, float, bool)):
+        return str(x)
     if isinstance(x, (tuple, list)):
         return '(' + ','.join(nm(i) for i in x) + ')'
     n = getattr(x, '__name__', None)
